@@ -77,7 +77,20 @@ def _required():
            "obj_dns_caching_dialer_of_shared_client_http_scenario", "obj_dns_caching_dialer_of_shared_client_redialing",
            "obj_dns_caching_dialer_per_instance_redialing", "dns_cache_on_target_not_pre_resolved",
            "dns_cache_on_and_shots_overlap", "dns_cache_on_shared_client_and_shots_overlap",
-           "dns_cache_on_shared_client_redialing_while_shots_overlap", "http_redialing_while_shots_overlap"]
+           "dns_cache_on_shared_client_redialing_while_shots_overlap", "http_redialing_while_shots_overlap",
+           # engines of several pools and the guns' answ logs: component constructors that run on the goroutines of several
+           # pools and of their instances at once (after seeded defect C11/m14)
+           "pools_1", "pools_2", "pools_3", "pools_4", "multi_pool", "multi_pool_one_gun_kind", "multi_pool_mixed_gun_kinds",
+           "multi_pool_grpc_guns_in_2_or_more_pools", "multi_pool_answlog_of_grpc_guns_in_2_or_more_pools",
+           "multi_pool_answlog_of_grpc_guns_made_side_by_side", "multi_pool_grpc_guns_with_and_without_answlog",
+           "multi_pool_answlog_of_http_guns_in_2_or_more_pools", "multi_pool_answlog_of_grpc_and_http_guns",
+           "multi_pool_answlog_default_file_shared_by_pools", "multi_pool_guns_made_side_by_side",
+           "multi_pool_shots_overlap_across_pools", "multi_pool_shots_overlap_within_2_or_more_pools",
+           "multi_pool_more_than_16_instances", "sibling_kind_http", "sibling_kind_http_scenario", "sibling_kind_grpc",
+           "sibling_kind_grpc_scenario", "sibling_overlap_measured", "sibling_answlog_file_holds_entries",
+           "obj_answlog", "obj_answlog_http", "obj_answlog_http_scenario", "obj_answlog_grpc", "obj_answlog_grpc_scenario",
+           "obj_answlog_file_own", "obj_answlog_file_default", "obj_answlog_written_while_shooting",
+           "answlog_file_holds_entries", "answlog_file_holds_entries_and_shots_overlap"]
     cls += ["obj_http_" + c for c in per_scen] + ["obj_grpc_" + c for c in per_scen]
     dropped = set()
     for fid in _known_ids():
@@ -139,7 +152,23 @@ SPEC = {
              "cases) the 1-3 clients and their dialers belong to all instances at once. Connections are opened all through the run, "
              "not only by the first shots: `disable-keep-alives: true` in about 3 cases of 10, the target answering every k-th "
              "request (k = 1, 2, 3, 5) with `Connection: close` in about 4 of 10, and a shared client keeps only two idle connections "
-             "(net/http's default) for all its instances anyway; measured: connections the target accepted against instances. Scenarios are built from switches, one per shared "
+             "(net/http's default) for all its instances anyway; measured: connections the target accepted against instances. "
+             "The gun option `answlog` (enabled, path, filter) is named for about 4 pools of 10 of every kind: a file of the pool's own in "
+             "the child's working directory or (1 of 3) no path - the default `answ.log` of the working directory -, the filter not "
+             "named / `all` (2 of 3: the guns write every request and answer into the log while they shoot) or `warning` / `error`; "
+             "the http guns make the logger once when the gun section is decoded, the grpc and grpc/scenario guns make it in the gun "
+             "constructor, i.e. on the pool's goroutine (warm-up gun) and on every instance's goroutine; measured: the file is there "
+             "and holds entries after the run. About a quarter of the cases are ENGINES OF 2-4 POOLS (drawn last, so the first pool "
+             "is what the case would have been alone): 1-3 sibling pools, each a whole pool description of its own - in half of the "
+             "draws of the first pool's kind, otherwise any of the four kinds evenly; 2-6 instances, 2-4 ammo per instance, its own target, provider "
+             "files, aggregator file, rps and startup schedules and every option above except the storm; `answlog` for 6 siblings "
+             "of 10, about 4 of 10 of those without a path, so that the pools of an engine which name no path share the default file - all in ONE engine.Config and run by one engine.Run: the "
+             "pools warm their guns up, start their instances and make the instances' guns side by side on their own goroutines "
+             "(measured: the gun factory calls of one pool begin before those of another end and the other way round; shots of one "
+             "pool begin while a gun of another pool is shooting). Every pool of the engine is judged by the whole oracle below "
+             "with its own probes (the engine's log entries carry the pool id, the pre-resolve warnings the target); the engine's "
+             "InstanceStart metric is compared with the guns bound in all pools together, and a gun is only ever bound to an "
+             "instance of the pool whose factory made it. Scenarios are built from switches, one per shared "
              "object: preprocessor row mapping source.users[next|rand|last] on a file/csv or file/json source, [next|rand|last] indexing "
              "of an array taken from an earlier response, randInt / randString / uuid as template functions and as preprocessor "
              "functions, a `variables` source with randomised values, header / metadata maps (none, constants, templates), var/jsonpath, "
@@ -176,7 +205,16 @@ SPEC = {
                _T + "/dns_cache_on_shared_client_redialing_while_shots_overlap": 0.03,
                _T + "/obj_dns_caching_dialer_of_shared_client_http": 0.015,
                _T + "/obj_dns_caching_dialer_of_shared_client_http_scenario": 0.015,
-               _T + "/http_redialing_while_shots_overlap": 0.12},
+               _T + "/http_redialing_while_shots_overlap": 0.12,
+               # classes added after seeded defect C11/m14 (gun constructors of several pools of one engine running side by side)
+               _T + "/multi_pool": 0.12, _T + "/multi_pool_guns_made_side_by_side": 0.12,
+               _T + "/multi_pool_shots_overlap_across_pools": 0.1, _T + "/multi_pool_one_gun_kind": 0.04,
+               _T + "/multi_pool_mixed_gun_kinds": 0.05, _T + "/multi_pool_grpc_guns_in_2_or_more_pools": 0.03,
+               _T + "/multi_pool_answlog_of_grpc_guns_in_2_or_more_pools": 0.02,
+               _T + "/multi_pool_answlog_of_grpc_guns_made_side_by_side": 0.02,
+               _T + "/multi_pool_answlog_of_http_guns_in_2_or_more_pools": 0.03,
+               _T + "/obj_answlog": 0.19, _T + "/obj_answlog_grpc_scenario": 0.045, _T + "/obj_answlog_grpc": 0.012,
+               _T + "/answlog_file_holds_entries_and_shots_overlap": 0.09},
     "required_classes": _required(),
     "manifest": {
         "technique": ("property testing (rapid) under the Go race detector: generated pool configurations run by the real engine in a child "
@@ -206,7 +244,11 @@ SPEC = {
                  "http guns whose clients - shared by all instances or not - dial through the DNS caching dialer (target named by a "
                  "host name that came up only after the config was read), with connections opened all through the run by several "
                  "instances at once, run without a race report, all counts above hold exactly as for a target named by IP, and no "
-                 "gun ever dials an empty address (`missing address` is never a transport error of a busy machine)."),
+                 "gun ever dials an empty address (`missing address` is never a transport error of a busy machine); engines of "
+                 "2-4 pools of the same or of different kinds, with the guns' answ logs enabled in some of them (own files or the "
+                 "shared default file), whose pools construct, warm up, bind and fire their guns side by side, run without a race "
+                 "report or runtime fault, every pool of the engine satisfies all of the above on its own, no gun is bound to an "
+                 "instance of another pool, and the engine started exactly as many instances as guns were bound in all pools."),
         "note": ("Race freedom is established only on the schedules that occurred (each case runs the pool twice; a failing case and its "
                  "shrink candidates are re-run up to 12 times). The race detector only sees accesses that are unordered by "
                  "happens-before; the engine's own atomic counters order whole shots, so only shots that really overlap in time can "
